@@ -181,6 +181,27 @@ pub fn c14(a: &Args) {
         }
         out.ev(&decode_event(&p, "rnd"));
     }
+    // at the cap: pictures that reach the 4096-pixel limit exactly, one short of it and one beyond, in height (4096 is not a
+    // multiple of the 6-pixel band: the last band is cut) and in width, for data characters with only low bits, only high bits, all
+    for k in [680usize, 681, 682, 683, 684] {
+        for d in [b'@', b'A', b'O', b'_', b'~', b'?'] {
+            for raster in [&b""[..], &b"\"1;1;1;4096"[..], &b"\"1;1;1;4095"[..], &b"\"1;1;1;4097"[..]] {
+                let mut p = raster.to_vec();
+                p.extend_from_slice(b"#1");
+                // k graphics new lines, written as two repeat groups (a repeat applies to '-' as well) or literally
+                if d == b'~' && k % 2 == 0 { p.extend(std::iter::repeat(b'-').take(k)); } else { p.extend_from_slice(format!("!500-!{}-", k - 500).as_bytes()); }
+                p.push(d);
+                out.ev(&decode_event(&p, "cap"));
+            }
+        }
+    }
+    for n in [4094usize, 4095, 4096, 4097, 4098] {
+        for tail in [&b""[..], &b"~"[..], &b"~~-~"[..]] {
+            let mut p = format!("#1!{n}~").into_bytes();
+            p.extend_from_slice(tail);
+            out.ev(&decode_event(&p, "cap"));
+        }
+    }
     out.flush();
     eprintln!("c14: {} decoder events", out.n);
     // ---- (b) queue schedules exported by TLC
